@@ -85,7 +85,8 @@ def gen_scenario(rng: random.Random) -> Dict[str, Any]:
     grid = [0, 1, 100, 199, 200, 201, 300, 320, 500, 999, 1000, 1001, 1300, 2000, 2999, 3000, 3001, 9999, 10000, 10050]
     for _ in range(rng.choice([0, 1, 1, 2, 3, 4])):
         off = rng.choice(grid + [timeout - 1, timeout, timeout + 1, timeout + 100])
-        kinds = rng.choice([["SRV"], ["TXT"], ["A"], ["AAAA"], ["SRV", "A"], ["SRV", "TXT", "A", "AAAA"], ["A", "AAAA"]])
+        kinds = list(rng.choice([["SRV"], ["TXT"], ["A"], ["AAAA"], ["SRV", "A"], ["SRV", "TXT", "A", "AAAA"], ["A", "AAAA"]]))
+        rng.shuffle(kinds)          # address records may precede the SRV record that makes them relevant
         ttl_mode = rng.choice(["normal", "normal", "normal", "ttl1", "goodbye"])
         target = rng.choice([HOSTS[0], HOSTS[0], HOSTS[1]])
         arrivals.append({"off": float(off), "kinds": kinds, "ttl_mode": ttl_mode, "target": target, "addr_host": rng.choice([target, HOSTS[0]]),
@@ -192,6 +193,8 @@ def run_scenario(res: Result, seed: int) -> None:
                 "name": info.name,
             }
             out["end_mark"] = len(sim.net.trace)
+            out["cache_at_ret"] = {lname: [(R.ident_of_lib(r), r.created, r.ttl) for r in zc.cache.entries_with_name(lname)]
+                                   for lname in (NAME.lower(), HOSTS[0], HOSTS[1])}
             await sim.sleep_ms(300)
             await azc.async_close()
 
@@ -217,6 +220,13 @@ def analyse(res: Result, sim: simnet.Sim, sc: Dict[str, Any], out: Dict[str, Any
         viol("c18.deadline", "returned_after_deadline", "async_request(timeout=%d) returned after %.1f ms" % (sc["timeout"], ret - S))
     if bool(result) != bool(f["addrs"]):
         viol("c18.deadline", "result_vs_addresses", "returned %r with %d address(es) known" % (result, len(f["addrs"])), result=bool(result))
+    if not result:
+        # not demanded by the statement (it speaks of what the lookup knows), but worth counting: did it give up while the
+        # cache held an unexpired SRV and an unexpired address of that SRV's host?
+        car = out["cache_at_ret"]
+        live_srv = [x for x in car.get(NAME.lower(), []) if x[0][0] == "SRV" and x[1] + 1000.0 * x[2] > ret]
+        if any(y[0][0] in ("A", "AAAA") and y[1] + 1000.0 * y[2] > ret for x in live_srv for y in car.get(x[0][2][3], [])):
+            res.obs("lookup_failed_although_cache_sufficed_at_return")
     # ---- replay the reads through the model
     reads = out["reads"]
     res.mon("c18.hook_reads", len(reads))
